@@ -19,6 +19,12 @@ and `internal/modify/dkim/keys.go` `loadOrGenerateKey`, `generateAndWrite`, `wri
 * a file that is not a PEM private key where the key is expected (here: a record file) makes
   `Init` fail (`invalid PEM block`); files created before the failure stay.
 
+* (round 6) the administrator's doings between starts: `importKey` — a private key (a new pair) is
+  put where no file is, WITHOUT a record file (copied from another server, made with openssl);
+  `deleteFile` — a file (a record) is removed.  `Init` on such a directory: `loadOrGenerateKey`
+  finds the key and returns it; nothing is written (in particular no record: the only caller of
+  `writeDNSRecord` is `generateAndWrite`, which passes the `k=` name of the key it has just made).
+
 Not modelled: permissions, I/O errors, `rsa4096` vs. `rsa2048` (both are `k=rsa`), malformed keys.
 -/
 namespace MaddyVerif.DkimKeys
@@ -123,5 +129,29 @@ def restarts (c : Cfg) : List Algo → InitRes → InitRes
     match r.err with
     | some _ => r
     | none => restarts c as (init { c with algo := a } r.fs r.next)
+
+/-- the administrator removes the file `q` (every entry of the association list for that path) -/
+def deleteFile (fs : FS) (q : Bytes) : FS := fs.filter (fun e => !(e.1 == q))
+
+/-- the administrator puts a private key (a new pair, number `n`) of type `a` at `p` if nothing is
+there; no record file comes with it -/
+def importKey (fs : FS) (n : Nat) (p : Bytes) (a : Algo) : FS × Nat :=
+  match fs.lookup p with
+  | none => ((p, .key n a) :: fs, n + 1)
+  | some _ => (fs, n)
+
+/-- what happens to a key directory: a start of a modifier instance, or the administrator -/
+inductive Event
+  | start (c : Cfg)
+  | imp (p : Bytes) (a : Algo)
+  | del (q : Bytes)
+
+def step (s : FS × Nat) : Event → FS × Nat
+  | .start c => ((init c s.1 s.2).fs, (init c s.1 s.2).next)
+  | .imp p a => importKey s.1 s.2 p a
+  | .del q => (deleteFile s.1 q, s.2)
+
+/-- the directory (and the number of key pairs made so far) after a history of events -/
+def history (es : List Event) (s : FS × Nat) : FS × Nat := es.foldl step s
 
 end MaddyVerif.DkimKeys
